@@ -25,6 +25,7 @@ func checkC08(c *Ctx) {
 	c.rule("C08.f", "FETCH responses of the backend carry an encoded, non-zero sequence number", 1)
 	c.rule("C08.g", "a session registers with the mailbox tracker inside the critical section that takes its EXISTS snapshot", 2)
 	c.rule("C08.h", "tracker queue: writer and sequence-number translation agree on one entry per update", 2)
+	c.rule("C08.i", "mailbox-view and client-view sequence numbers are not mixed (tracker Queue* arguments, SeqSet probes)", 5)
 	c.rule("C08.L", "layering lemma", 1)
 	cut := layeringCut(c, "C08.L")
 	g := buildModGraph(p, p.VTA(), nil)
@@ -100,6 +101,7 @@ func checkC08(c *Ctx) {
 	}
 	ruleRegistrationAtomic(c, "C08.g", la)
 	ruleQueueEncoding(c, "C08.h")
+	ruleNumberViews(c, "C08.i")
 	// expungeLocked: per removed message exactly one QueueExpunge: the call and the "keep" append are the two arms of one test
 	if ex := p.Func("imapserver/imapmemserver", "Mailbox", "expungeLocked"); ex != nil {
 		okArms := false
@@ -514,6 +516,10 @@ func checkC09(c *Ctx) {
 	}
 	ruleWireIntSums(c, "C09.d")
 	ruleNamespaceKeys(c, "C09.e")
+	c.rule("C09.f", "mailbox-view and client-view sequence numbers are not mixed (tracker Queue* arguments, SeqSet probes)", 5)
+	ruleNumberViews(c, "C09.f")
+	c.rule("C09.g", "COPYUID: source set fed from the source messages' uid, destination set from the append's reported UID", 4)
+	ruleCopyUIDProvenance(c, "C09.g")
 }
 
 // ruleNamespaceKeys: C09.e. Every insertion into User.mailboxes uses, as
@@ -625,7 +631,7 @@ func unlockBetween(from ssa.CallInstruction, to []ssa.CallInstruction) ssa.Instr
 			}
 			if call, ok := i.(ssa.CallInstruction); ok {
 				if _, isDefer := i.(*ssa.Defer); !isDefer {
-					if op, _ := isMutexOp(call); op == "Unlock" || op == "RUnlock" {
+					if op, _ := isMutexOp(call); op == "unlock" {
 						return i
 					}
 				}
